@@ -53,6 +53,13 @@ def run_pipe(kind, tier, seed, C):
         err = "stream %s: driver saw %s of %d cases" % (kind, done.group(1), n)
     return {"cases": n, "nontrivial": len(seen), "samples": samples, "violations": viol, "error": err}
 
+def count_check(coq_output, parsed, name):
+    """the Coq file prints the number of reported entries separately: whatever our parser extracted must be exactly that many"""
+    m = re.search(r"MN\s*=\s*(\d+)", coq_output)
+    if not m: return "coqc %s: entry count missing" % name
+    if int(m.group(1)) != parsed: return "coqc %s: %s entries reported by Coq, %d parsed" % (name, m.group(1), parsed)
+    return None
+
 # ---------------------------------------------------------------- cases.v streams: harness output evaluated inside Coq
 CASES_HEADER = """From Coq Require Import List NArith ZArith Bool String.
 From Coq.Strings Require Import Byte.
@@ -92,7 +99,7 @@ def run_cert(kind, tier, seed, C, tz=None):
     for k in range(nsh):
         idx = list(range(k, len(terms), nsh))
         name = "Cases_%s_%d" % (re.sub(r"\W", "_", tag), k)
-        v = CASES_HEADER + ";\n".join(terms[i] for i in idx) + "].\nDefinition M := Eval vm_compute in run_cases cases.\nPrint M.\n"
+        v = CASES_HEADER + ";\n".join(terms[i] for i in idx) + "].\nDefinition M := Eval vm_compute in run_cases cases.\nPrint M.\nDefinition MN := Eval vm_compute in List.length M.\nPrint MN.\n"
         open(os.path.join(C["bdir"], name + ".v"), "w").write(v)
         procs.append((idx, name, subprocess.Popen(["coqc"] + C["COQ_Q"] + [name + ".v"], cwd=C["bdir"], stdout=subprocess.PIPE, stderr=subprocess.PIPE, text=True, env=C["ENV"])))
     err = None
@@ -103,9 +110,11 @@ def run_cert(kind, tier, seed, C, tz=None):
             pr.kill(); err = "coqc %s timed out" % name; continue
         if pr.returncode != 0:
             err = "coqc %s failed: %s" % (name, e.strip()[-400:]); continue
-        m = re.search(r"M\s*=\s*(.*?)\s*:\s*list", o, re.S)
+        m = re.search(r"M\s*=\s*(.*?)\s*:\s*list", re.sub(r"%(N|nat|Z)\b", "", o), re.S)
         if not m: err = "coqc %s: no result" % name; continue
-        for j, codes in re.findall(r"\((\d+)%?n?a?t?, \[([^\]]*)\]\)", m.group(1)):
+        found = re.findall(r"\((\d+)%?n?a?t?, \[([^\]]*)\]\)", m.group(1))
+        err = count_check(o, len(found), name) or err
+        for j, codes in found:
             cs = [int(x) for x in re.findall(r"\d+", codes)]
             i = idx[int(j)]
             # concrete when the implementation's own output fails a specification check (strict parse, shape, key algorithm,
@@ -142,7 +151,7 @@ def run_dir(kind, tier, seed, C):
     for k in range(nsh):
         idx = list(range(k, len(terms), nsh))
         name = "Dir_%s_%d" % (kind, k)
-        v = DIR_HEADER + ";\n".join(terms[i] for i in idx) + "].\nDefinition M := Eval vm_compute in run_histories cases.\nPrint M.\n"
+        v = DIR_HEADER + ";\n".join(terms[i] for i in idx) + "].\nDefinition M := Eval vm_compute in run_histories cases.\nPrint M.\nDefinition MN := Eval vm_compute in List.length M.\nPrint MN.\n"
         open(os.path.join(C["bdir"], name + ".v"), "w").write(v)
         procs.append((idx, name, subprocess.Popen(["coqc"] + C["COQ_Q"] + [name + ".v"], cwd=C["bdir"], stdout=subprocess.PIPE, stderr=subprocess.PIPE, text=True, env=C["ENV"])))
     err = None; steps = 0; runs = 0
@@ -154,7 +163,7 @@ def run_dir(kind, tier, seed, C):
             pr.kill(); err = "coqc %s timed out" % name; continue
         if pr.returncode != 0:
             err = "coqc %s failed: %s" % (name, e.strip()[-400:]); continue
-        m = re.search(r"M\s*=\s*(.*?)\s*:\s*list", o, re.S)
+        m = re.search(r"M\s*=\s*(.*?)\s*:\s*list", re.sub(r"%(N|nat|Z)\b", "", o), re.S)
         if not m: err = "coqc %s: no result" % name; continue
         body = re.sub(r"\s+", " ", m.group(1))
         RULES = {1: "C01: a successful run left an entity it wrote without a certificate that verifies under and names its issuer's current certificate",
@@ -162,7 +171,9 @@ def run_dir(kind, tier, seed, C):
                  3: "C12: after a successful default run an entity lacks certificate or key material, or a hashed certificate does not chain",
                  4: "C14: a run replaced or dropped an existing key / request, or the new certificate does not carry its public key",
                  5: "C15: a failed write was reported as a successful run"}
-        for j, steps_s, rules_s in re.findall(r"\((\d+), \(\[([\d; ]*)\], \[([\d;, ()]*)\]\)\)", body):
+        found = re.findall(r"\((\d+), \(\[([\d; ]*)\], \[([\d;, ()]*)\]\)\)", body)
+        err = count_check(o, len(found), name) or err
+        for j, steps_s, rules_s in found:
             i = idx[int(j)]
             rules = [(int(a), int(b)) for a, b in re.findall(r"\((\d+), (\d+)\)", rules_s)]
             det = []
@@ -209,7 +220,7 @@ def run_keys(kind, tier, seed, C):
         for sh_i in range(nsh):
             idx = list(range(sh_i, len(terms[k]), nsh))
             name = "Keys_%s_%s_%d" % (re.sub(r"\W", "_", kind), k, sh_i)
-            v = KEY_HEADER + "Definition cases : list %s := [\n" % DEF[k][0] + ";\n".join(terms[k][i] for i in idx) + "].\nDefinition M := Eval vm_compute in %s cases.\nPrint M.\n" % DEF[k][1]
+            v = KEY_HEADER + "Definition cases : list %s := [\n" % DEF[k][0] + ";\n".join(terms[k][i] for i in idx) + "].\nDefinition M := Eval vm_compute in %s cases.\nPrint M.\nDefinition MN := Eval vm_compute in List.length M.\nPrint MN.\n" % DEF[k][1]
             open(os.path.join(C["bdir"], name + ".v"), "w").write(v)
             procs.append((k, idx, name, subprocess.Popen(["coqc"] + C["COQ_Q"] + [name + ".v"], cwd=C["bdir"], stdout=subprocess.PIPE, stderr=subprocess.PIPE, text=True, env=C["ENV"])))
     err = None
@@ -219,9 +230,11 @@ def run_keys(kind, tier, seed, C):
             pr.kill(); err = "coqc %s timed out" % name; continue
         if pr.returncode != 0:
             err = "coqc %s failed: %s" % (name, e.strip()[-400:]); continue
-        m = re.search(r"M\s*=\s*(.*?)\s*:\s*list", o, re.S)
+        m = re.search(r"M\s*=\s*(.*?)\s*:\s*list", re.sub(r"%(N|nat|Z)\b", "", o), re.S)
         if not m: err = "coqc %s: no result" % name; continue
-        for j, codes in re.findall(r"\((\d+), \[([^\]]*)\]\)", m.group(1)):
+        found = re.findall(r"\((\d+), \[([^\]]*)\]\)", m.group(1))
+        err = count_check(o, len(found), name) or err
+        for j, codes in found:
             cs = [int(x) for x in re.findall(r"\d+", codes)]
             i = idx[int(j)]
             viol.append({"case": descr[k][i], "detail": "; ".join(KEY_CODES.get((k, c), str(c)) for c in cs), "codes": cs,
@@ -258,7 +271,7 @@ def run_hview(kind, tier, seed, C):
     nsh = max(1, min(12, len(terms) // 100)); procs = []
     for k in range(nsh):
         idx = list(range(k, len(terms), nsh)); name = "Hash_%d" % k
-        open(os.path.join(C["bdir"], name + ".v"), "w").write(HASH_HEADER + ";\n".join(terms[i] for i in idx) + "].\nDefinition M := Eval vm_compute in run_pairs cases.\nPrint M.\n")
+        open(os.path.join(C["bdir"], name + ".v"), "w").write(HASH_HEADER + ";\n".join(terms[i] for i in idx) + "].\nDefinition M := Eval vm_compute in run_pairs cases.\nPrint M.\nDefinition MN := Eval vm_compute in List.length M.\nPrint MN.\n")
         procs.append((idx, name, subprocess.Popen(["coqc"] + C["COQ_Q"] + [name + ".v"], cwd=C["bdir"], stdout=subprocess.PIPE, stderr=subprocess.PIPE, text=True, env=C["ENV"])))
     err = None
     for idx, name, pr in procs:
@@ -267,9 +280,11 @@ def run_hview(kind, tier, seed, C):
             pr.kill(); err = "coqc %s timed out" % name; continue
         if pr.returncode != 0:
             err = "coqc %s failed: %s" % (name, e.strip()[-400:]); continue
-        m = re.search(r"M\s*=\s*(.*?)\s*:\s*list", o, re.S)
+        m = re.search(r"M\s*=\s*(.*?)\s*:\s*list", re.sub(r"%(N|nat|Z)\b", "", o), re.S)
         if not m: err = "coqc %s: no result" % name; continue
-        for j, codes in re.findall(r"\((\d+), \[([^\]]*)\]\)", m.group(1)):
+        found = re.findall(r"\((\d+), \[([^\]]*)\]\)", m.group(1))
+        err = count_check(o, len(found), name) or err
+        for j, codes in found:
             cs = [int(x) for x in re.findall(r"\d+", codes)]; i = idx[int(j)]
             viol.append({"case": descr[i][:3000], "detail": "; ".join(HASH_CODES.get(c, str(c)) for c in cs), "codes": cs, "concrete": any(c in (2, 3) for c in cs), "coq": terms[i][:20000]})
         for f in (name + ".vo", name + ".glob", name + ".vok", name + ".vos", "." + name + ".aux"):
